@@ -113,6 +113,7 @@ func (p *StageWorkerPool) Stop() {
 
 func (p *StageWorkerPool) worker(ctx context.Context) {
 	defer p.wg.Done()
+	defer verifTrace(evWExit, p.stage, 0, 0)
 
 	for {
 		select {
@@ -122,8 +123,10 @@ func (p *StageWorkerPool) worker(ctx context.Context) {
 			if !ok {
 				return
 			}
+			verifTrace(evWTake, p.stage, item.SequenceNumber(), 0)
 
 			err := p.stage.Process(ctx, item)
+			verifTraceProc(p.stage, item, err)
 
 			// Record metrics only for actual processing attempts (not context cancellation)
 			// and only if the shouldRecord check passes (or is nil)
@@ -136,17 +139,23 @@ func (p *StageWorkerPool) worker(ctx context.Context) {
 
 			if err != nil && p.errors != nil {
 				// Send error but still forward item for tracking
+				vst := verifStamp()
 				select {
 				case p.errors <- err:
+					verifTraceAt(vst, evWErrSent, p.stage, item.SequenceNumber())
 				case <-ctx.Done():
+					verifTrace(evWErrAbort, p.stage, item.SequenceNumber(), 0)
 					return
 				}
 			}
 
 			// Forward to next stage (even on error, for stats tracking)
+			vst := verifStamp()
 			select {
 			case p.output <- item:
+				verifTraceAt(vst, evWPut, p.stage, item.SequenceNumber())
 			case <-ctx.Done():
+				verifTrace(evWPutAbort, p.stage, item.SequenceNumber(), 0)
 				return
 			}
 		}
